@@ -1,0 +1,28 @@
+//go:build verif
+
+package bitmap
+
+// Verification hooks (build tag verif): read-only views used to build canonical
+// state keys for the model checker. Never compiled into a normal build.
+
+// VerifBits returns the indexes of the blocks currently marked allocated.
+func (a *Allocator) VerifBits() []uint {
+	a.l.Lock()
+	defer a.l.Unlock()
+	var out []uint
+	for i, ok := a.bitmap.NextSet(0); ok; i, ok = a.bitmap.NextSet(i + 1) {
+		out = append(out, i)
+	}
+	return out
+}
+
+// VerifBits returns the offsets of the addresses currently marked allocated.
+func (a *IPv4Allocator) VerifBits() []uint {
+	a.l.Lock()
+	defer a.l.Unlock()
+	var out []uint
+	for i, ok := a.bitmap.NextSet(0); ok; i, ok = a.bitmap.NextSet(i + 1) {
+		out = append(out, i)
+	}
+	return out
+}
